@@ -11,6 +11,7 @@ CONSTANTS
   RetryFailed = TRUE
   ClosedRejects = TRUE
   AtomicWrite = TRUE
+  RegisterAtGet = TRUE
   AtomicEvict = FALSE
   UniqueStamp = TRUE
   EvictChecksRef = TRUE
